@@ -2347,7 +2347,7 @@ func (c *Ctx) nestedArgsRule(rule string) {
 			for _, s := range c.CallsIn(af, "(*"+pBld+"assignmentBuilder).structToStruct", false) {
 				n++
 				a := c.O.Of(s.Args()[3])
-				r.Check(rule, "candidate-handler-of-the-default-matcher:nested-copy-args", c.Pos(s.Pos()), !a.Is("const", "nil"), "the nested copy is started with nil additional arguments")
+				r.Check(rule, "candidate-handler-of-the-default-matcher:nested-copy-args", c.Pos(s.Pos()), a.Kind == "fv" || a.Kind == "param", "the nested copy is not started with the additional arguments the matcher itself received, but with "+a.String())
 			}
 		}
 	}
